@@ -168,21 +168,26 @@ def check(prog, rep, tier):
         f = bgp.find_method(meth)
         for fam, afisafi in sorted(fams.items()):
             for kind, code, lk in (('announce', 14, 'nlri'), ('withdraw', 15, 'withdraw')):
-                def build(st, code=code, lk=lk, afisafi=afisafi, meth=meth):
-                    rule = Opaque('rule')
-                    inner = mk_dict(st, {'afi_safi': mk_list(st, [Const(x) for x in afisafi]),
-                                         lk: mk_list(st, [rule])})
-                    attr = mk_dict(st, {code: inner})
-                    args = [attr, Opaque('nlri'), Opaque('withdraw')]
-                    if meth == 'update_send_version':
-                        args = [Opaque('peer_ip')] + args
-                    return args
-                outs, o = run_case(prog, meth, build)
+                # the family is handed over in both sequence kinds: which one the code compares with (and whether
+                # that is what the producer yields) is R19.d's question, here the body of the branch is judged
+                allouts = []
+                for as_tuple in (False, True):
+                    def build(st, code=code, lk=lk, afisafi=afisafi, meth=meth, as_tuple=as_tuple):
+                        rule = Opaque('rule')
+                        fam_v = Const(tuple(afisafi)) if as_tuple else mk_list(st, [Const(x) for x in afisafi])
+                        inner = mk_dict(st, {'afi_safi': fam_v, lk: mk_list(st, [rule])})
+                        attr = mk_dict(st, {code: inner})
+                        args = [attr, Opaque('nlri'), Opaque('withdraw')]
+                        if meth == 'update_send_version':
+                            args = [Opaque('peer_ip')] + args
+                        return args
+                    outs_, o_ = run_case(prog, meth, build)
+                    allouts += [(k, v, s, o_) for k, v, s in outs_]
                 key = '%s:%s:%s' % (meth, fam, kind)
                 store = '%s_%s_dict' % (fam, sfx)
                 probs = []
                 seen = set()
-                for k, v, s in outs:
+                for k, v, s, o in allouts:
                     if k != 'val':
                         continue
                     vs = versions(s, o, ver)
@@ -196,6 +201,8 @@ def check(prog, rep, tier):
                             present = b
                         if '==' in t and so in t:
                             equal = b
+                    if present is None and equal is None and not muts and not d:
+                        continue        # the representation this code does not compare with: branch not entered
                     seen.add((present, equal))
                     if others:
                         probs.append('another family counter moves: %s' % vs)
